@@ -204,6 +204,18 @@ def run(ctx):
             except ValueError:
                 got = 'ValueError'
                 ctx.fail(f'fraction {k}/{w} (float {k / w!r}) rejected', {'w': w, 'k': k}, 'fraction-rejected')
+            # fractions inside the constructor's 1e-6 tolerance (0.1 added ten times, k/w computed with rounding error) resolve
+            # to the same k: the broadcast flags follow the RESOLVED worker count, not the requested float (C13-mutW)
+            for fr in ({k / w * (1 - 1e-9), min(1.0, k / w * (1 + 1e-9))} | ({sum([0.1] * 10)} if k == w else set())):
+                try:
+                    b = KAISAAssignment({'l': {'A': 1, 'G': 1}}, local_rank=w - 1, world_size=w, grad_worker_fraction=fr,
+                                        group_func=lambda r: None)
+                except ValueError:
+                    continue
+                if b.grad_workers != k or b.broadcast_gradients() != (k < w) or b.broadcast_inverses() != (k > 1):
+                    ctx.fail(f'fraction {fr!r} on {w} ranks resolves to {b.grad_workers} gradient workers but broadcast_gradients() = '
+                             f'{b.broadcast_gradients()}, broadcast_inverses() = {b.broadcast_inverses()} (expected {k < w}, {k > 1})',
+                             {'w': w, 'k': k, 'fraction': repr(fr)}, 'flags-inexact-fraction')
             vlines.append(f'kvalidate w={w} num={k} den={w} loc={w - 1}')
             vpend.append(({'w': w, 'k': k}, got))
             ctx.evaluations += 1
